@@ -33,7 +33,8 @@ def main():
     shutil.rmtree(PROF, ignore_errors=True)
     os.makedirs(PROF)
     r = sh('cargo +nightly build --release --offline', cwd=os.path.join(VERIF, 'harness'),
-           env={'RUSTFLAGS': '-C instrument-coverage', 'CARGO_TARGET_DIR': TGT})
+           env={'RUSTFLAGS': '-C instrument-coverage', 'CARGO_TARGET_DIR': TGT,
+                'LLVM_PROFILE_FILE': os.path.join(PROF, 'build-%p-%m.profraw')})   # build scripts are instrumented too: keep their profiles out of /repo
     if r.returncode != 0:
         print(r.stderr[-3000:])
         return 2
